@@ -354,4 +354,5 @@ package asp
 //@   opt nopanic=off
 //@   opt panics=allowed
 //@   opt appendalias=on
-//@   callsite panic frozen_lists_can_be_compared [C18]: hasPrefix(unbox(arg0, string), "Cannot compare list") ==> !listlike(operand)
+//@   callsite asList the_right_operand_of_a_comparison [C18]: arg_obj == operand
+//@   ensures comparison_goes_through_asList [C18]: operator == LessThan ==> called("asList")
